@@ -15,7 +15,12 @@ for name in sorted(os.listdir(d)):
     for c, v in m["checks"].items():
         if v["exit"] == 1:
             sigs.append(f"{c}: " + ", ".join(v["signatures"][:3]))
-    rows.append((name, m["property"], m.get("first_run", ""), m["needs_to_manifest"][:260].replace("|", "/"), "; ".join(sigs) or "NOT CAUGHT (quick tier)"))
+    first = m.get("first_run", "")
+    if m.get("later"):
+        first = (first + "; LATER: " if first else "LATER: ") + m["later"]
+    if m.get("status_on_head"):
+        first = (first + "; STATUS: " if first else "STATUS: ") + m["status_on_head"]
+    rows.append((name, m["property"], first, m["needs_to_manifest"][:260].replace("|", "/"), "; ".join(sigs) or "NOT CAUGHT (quick tier)"))
 with open(os.path.join(d, "README.md"), "w") as f:
     f.write("# Seeded changes (realistic breakage used to test the checks)\n\n")
     f.write("Each directory holds `patch.diff` (against /repo HEAD at the time, i.e. with all `fix:` commits), the author's `demo.py` "
@@ -27,5 +32,6 @@ with open(os.path.join(d, "README.md"), "w") as f:
     n_caught = sum(1 for r in rows if not r[4].startswith("NOT"))
     n_own = sum(1 for r in rows if r[4].startswith(r[1] + ":") or ("; " + r[1] + ":") in r[4])
     n_first = sum(1 for r in rows if not r[2])
-    f.write(f"\n{n_caught} of {len(rows)} changes are reported by the quick tier ({n_own} by the check of the property they were written against, the rest by the check of a neighbouring property named in the table); {n_first} were caught by the checks as first built, the others led to (or were measured after) the strengthening noted in the last column.\n")
+    n_neutral = sum(1 for name in os.listdir(d) if os.path.exists(os.path.join(d, name, "meta.json")) and json.load(open(os.path.join(d, name, "meta.json"))).get("status_on_head"))
+    f.write(f"\n{n_caught} of {len(rows)} changes are reported by the quick tier ({n_own} by the check of the property they were written against, the rest by the check of a neighbouring property named in the table); {n_first} were caught by the checks as first built, the others led to (or were measured after) the strengthening noted in the last column.  The patches were made against the HEAD of their day; `tools/reverify_seeded.py` re-runs them against the current HEAD: a patch that conflicts with a later `fix:` commit is not a trial any more, and {n_neutral} changes apply but no longer break their property there (STATUS in the last column).\n")
 print(len(rows), "seeded changes")
